@@ -82,11 +82,14 @@ def parseInt (v : Value) (base : Option Value) : Res Value :=
     | none =>
       match s with
       | [] => .err
-      | 48 :: 98 :: r => (optToRes (fromStrRadix r 2)).map .int
-      | 48 :: 111 :: r => (optToRes (fromStrRadix r 8)).map .int
-      | 48 :: 120 :: r => (optToRes (fromStrRadix r 16)).map .int
-      | 48 :: r => (optToRes (fromStrRadix (48 :: r) 8)).map .int
-      | s => (optToRes (fromStrRadix s 10)).map .int
+      | c :: rest =>
+        if c = 48 then
+          match rest with
+          | 98 :: r => (optToRes (fromStrRadix r 2)).map .int
+          | 111 :: r => (optToRes (fromStrRadix r 8)).map .int
+          | 120 :: r => (optToRes (fromStrRadix r 16)).map .int
+          | _ => (optToRes (fromStrRadix (48 :: rest) 8)).map .int
+        else (optToRes (fromStrRadix (c :: rest) 10)).map .int
   | _ => .err
 
 end Conv
